@@ -29,11 +29,15 @@ REQUIRED_FEATURES = ["encoding:enum", "encoding:int", "selector:chroms", "select
 def plan(tier, seed):
     n = 16 if tier == "quick" else 48
     per = 5 if tier == "quick" else 40
-    return [{"kind": "sel", "sub": i, "cases": per} for i in range(n)]
+    return [{"kind": "sel", "sub": i, "cases": per} for i in range(n)] + \
+           [{"kind": "many", "sub": 900 + i, "cases": 1} for i in range(1 if tier == "quick" else 4)]
 
 
 def run(ctx, shard):
     probes.activate(ctx)
+    if shard["kind"] == "many":
+        many_contigs(ctx, shard)
+        return
     rng0 = ctx.rng("plan", shard["sub"])
     for i in range(shard["cases"]):
         seedk = int(rng0.integers(2**31))
@@ -230,13 +234,16 @@ def one_cooler(ctx, cid, rng, idx):
     path = ctx.path()
     group = "/" if idx % 3 else "/deep/er/grp"
     uri = path + ("::" + group if group != "/" else "")
-    make_cooler(uri, bt, P, symm=symm, extra={"score": E}, bins_extra=bex)
+    idt = [None, np.uint32, np.int32, np.uint16][idx % 4]        # bin id columns may be narrower / unsigned
+    make_cooler(uri, bt, P, symm=symm, extra={"score": E}, bins_extra=bex,
+                dtypes={"bin1_id": idt, "bin2_id": idt} if idt else None)
     enc = "int" if idx % 2 else "enum"
     if enc == "int":
         to_int_encoding(path, group)
     T = raw_tables(path, group)
     with ctx.case(cid, {"bt": bt, "symm": symm, "encoding": enc, "nnz": len(P), "bins_extra": bool(bex)}) as c:
-        c.feature(f"encoding:{enc}", "location:root" if group == "/" else "location:nested-group")
+        c.feature(f"encoding:{enc}", "location:root" if group == "/" else "location:nested-group",
+                  f"bin-id-dtype:{np.dtype(idt).name if idt else 'int64'}")
         clr = cooler.Cooler(uri)
         nr = 60
         check_selector(c, "chroms", clr.chroms(), T["chroms"], ["name", "length"], rng, 25)
@@ -264,4 +271,48 @@ def one_cooler(ctx, cid, rng, idx):
             c.check(ok, "pixels-join-wrong", f"pixels(join=True)[{a}:{b}] does not carry each pixel's own bin coordinates")
         check_annotate(c, cooler, clr, T, rng, n, 16)
         ctx.sample({"family": fam, "encoding": enc, "nbins": n, "nnz": len(P), "extra_bin_columns": bool(bex)}, limit=4)
+    os.remove(path)
+
+
+def many_contigs(ctx, shard):
+    """Thousands of contigs: create_cooler itself stores bins/chrom as plain integers (the enum header
+    would be too large); selectors, joins and annotate must still speak in chromosome names."""
+    import cooler
+
+    rng = ctx.rng("many", shard["sub"])
+    cid = f"many:{shard['sub']}"
+    if not ctx.want(cid):
+        return
+    nct = int([6000, 9000, 7000, 12000][shard["sub"] % 4])
+    bt = [[f"scaffold_{i:06d}_len", [0, 5] if i % 4 else [0, 3, 5]] for i in range(nct)]
+    n = gen.bt_nbins(bt)
+    P = {}
+    for _ in range(500):
+        a, b = sorted((int(rng.integers(n)), int(rng.integers(n))))
+        P[(a, b)] = int(rng.integers(1, 9))
+    path = ctx.path()
+    make_cooler(path, bt, P, extra={"score": {k: 0.5 for k in P}})
+    with h5py.File(path, "r") as f:
+        is_enum = h5py.check_dtype(enum=f["bins/chrom"].dtype) is not None
+    T = raw_tables(path)
+    with ctx.case(cid, {"contigs": nct, "enum": is_enum, "encoding": "int" if not is_enum else "enum"}) as c:
+        c.feature("many-contigs:int-encoded-by-cooler" if not is_enum else "many-contigs:still-enum")
+        clr = cooler.Cooler(path)
+        check_selector(c, "chroms", clr.chroms(), T["chroms"], ["name", "length"], rng, 25)
+        bcols = ["chrom", "start", "end"]
+        check_selector(c, "bins", clr.bins(), {k: T["bins"][k] for k in bcols}, bcols, rng, 40)
+        pcols = ["bin1_id", "bin2_id", "count", "score"]
+        check_selector(c, "pixels", clr.pixels(), {k: T["pixels"][k] for k in pcols}, pcols, rng, 30)
+        a = 100
+        j = clr.pixels(join=True)[a:a + 50]
+        ids1, ids2 = T["pixels"]["bin1_id"][a:a + 50], T["pixels"]["bin2_id"][a:a + 50]
+        ok = col_eq(j["chrom1"], T["bins"]["chrom"][ids1]) and col_eq(j["chrom2"], T["bins"]["chrom"][ids2]) \
+            and col_eq(j["start1"], T["bins"]["start"][ids1]) and col_eq(j["end2"], T["bins"]["end"][ids2])
+        c.check(ok, "pixels-join-wrong", "pixels(join=True) on a many-contig file does not carry each pixel's own bin coordinates")
+        mp = clr.matrix(balance=False, as_pixels=True, join=True)[0:n // 2, 0:n]
+        want = [(T["bins"]["chrom"][i], T["bins"]["chrom"][j_]) for (i, j_) in sorted(P) if i < n // 2]
+        c.check(list(zip(mp["chrom1"].astype(str), mp["chrom2"].astype(str))) == want, "matrix-pixels-join-wrong",
+                "matrix(as_pixels=True, join=True) chromosome names differ on a many-contig file")
+        c.nontrivial("many", nct)
+        ctx.sample({"many_contigs": nct, "stored_as_enum": is_enum}, limit=6)
     os.remove(path)
